@@ -66,20 +66,22 @@ def main():
         else:
             print(f"algo/{cfg}:", vlib.parse_tlc_stats(r.stdout))
             layer2[cfg] = dict(vlib.parse_tlc_stats(r.stdout), result="no invariant violated")
-    # self-consistency of the codec oracle (spec/MC_Codecs.tla): encoders against denotations, generative against analytic
-    meta = os.path.join(vlib.OUT, "mc_codecs")
-    try:
-        r = subprocess.run(vlib.tlc_cmd("MC_Codecs.tla", "MC_Codecs_small.cfg", meta, workers=8, gc="-XX:+UseParallelGC", xmx="6g"),
-                           cwd=vlib.SPEC, capture_output=True, text=True, timeout=900)
-        if "No error has been found" not in r.stdout:
-            sys.stderr.write("setup: MC_Codecs_small failed\n" + r.stdout[-1500:])
+    # self-consistency of the oracles: codecs (encoders against denotations, generative against analytic definitions) and
+    # text (what the formatter may print against the parser contracts and native digits)
+    for mod, cfg in (("MC_Codecs", "MC_Codecs_small"), ("MC_Text", "MC_Text_small")):
+        meta = os.path.join(vlib.OUT, cfg.lower())
+        try:
+            r = subprocess.run(vlib.tlc_cmd(mod + ".tla", cfg + ".cfg", meta, workers=8, gc="-XX:+UseParallelGC", xmx="6g"),
+                               cwd=vlib.SPEC, capture_output=True, text=True, timeout=900)
+            if "No error has been found" not in r.stdout:
+                sys.stderr.write(f"setup: {cfg} failed\n" + r.stdout[-1500:])
+                rc = 2
+            else:
+                print(f"spec/{cfg}:", vlib.parse_tlc_stats(r.stdout))
+                layer2[cfg] = dict(vlib.parse_tlc_stats(r.stdout), result="no invariant violated")
+        except subprocess.TimeoutExpired:
+            sys.stderr.write(f"setup: {cfg} timed out\n")
             rc = 2
-        else:
-            print("spec/MC_Codecs_small:", vlib.parse_tlc_stats(r.stdout))
-            layer2["MC_Codecs_small"] = dict(vlib.parse_tlc_stats(r.stdout), result="no invariant violated")
-    except subprocess.TimeoutExpired:
-        sys.stderr.write("setup: MC_Codecs_small timed out\n")
-        rc = 2
     import json
     with open(os.path.join(vlib.OUT, "layer2.json"), "w") as fh:
         json.dump(layer2, fh, indent=1)
